@@ -269,6 +269,28 @@ func c11ManyArgs(c *Ctx) {
 
 func runC11(c *Ctx) {
 	defer c11ManyArgs(c)
+	// history clauses first, so that each worker process meets them in its initial state
+	histFamily(c, "chains of type-computing calls on retained values", c06HistoryOps)
+	stdHistories(c, nil, func(fn *stdFn, args []cty.Value, o stdOutcome) string {
+		if o.Panic != "" || o.IsPanicE {
+			return "the call panicked: " + o.Panic + fmt.Sprint(o.Err)
+		}
+		if !o.OK() {
+			return ""
+		}
+		tys := make([]cty.Type, len(args))
+		for i, a := range args {
+			tys[i] = a.Type()
+		}
+		t := retType(fn.F, tys)
+		if t.Panic != "" || t.IsPanicE {
+			return "ReturnType panicked for the types of these arguments"
+		}
+		if t.Err == nil && !refConforms(tsOf(o.V.Type()), tsOf(t.T)) {
+			return fmt.Sprintf("the result type does not conform to the type predicted from the argument types, %#v", t.T)
+		}
+		return ""
+	})
 	// table vs source cross-check (reported, never a violation)
 	src := stdlibSourceFuncs()
 	c.Note("functions_in_table", fmt.Sprint(len(stdFns)))
